@@ -1,1 +1,345 @@
+// Engine S: the crate's *generic* butterfly code (CyclotomicFourier::{fft, ifft, split_fft, merge_fft},
+// Inverse::batch_inverse_or_zero) instantiated on symbolic field types. Running the real generic functions on these
+// types emits a QF_LIA script (one fresh remainder r and quotient k per field operation with a symbolic operand:
+// r = e - m*k, 0 <= r < m); operations on constants fold in Rust. z3 then decides the negated identity: `unsat` means
+// the identity holds for EVERY input vector in Z_m^n.
+//
+// The model of a field operation used here (exact ring operation mod m with a canonical result) is not assumed: it is
+// what engine K proves about the real `Felt` operators for all canonical operands (C12).
 #![allow(dead_code, unused_imports)]
+use crate::cyclotomic_fourier::CyclotomicFourier;
+use crate::falcon_field::Felt;
+use crate::inverse::Inverse;
+use num::{One, Zero};
+use std::cell::RefCell;
+use std::ops::{Add, Mul, MulAssign, Sub};
+
+thread_local! {
+    static MODULUS: RefCell<i64> = RefCell::new(12289);
+    static SCRIPT: RefCell<(u32, Vec<String>)> = RefCell::new((0, vec![]));
+}
+fn m() -> i64 {
+    MODULUS.with(|x| *x.borrow())
+}
+fn reset(modulus: i64) {
+    MODULUS.with(|x| *x.borrow_mut() = modulus);
+    SCRIPT.with(|s| *s.borrow_mut() = (0, vec![]));
+}
+
+#[derive(Clone, Copy, Debug)]
+pub enum SymFelt {
+    C(i64),
+    V(u32),
+}
+use SymFelt::{C, V};
+
+fn fresh(defn: String) -> SymFelt {
+    let q = m();
+    SCRIPT.with(|s| {
+        let mut s = s.borrow_mut();
+        let id = s.0;
+        s.0 += 1;
+        s.1.push(format!(
+            "(declare-const r{id} Int)(declare-const k{id} Int)(assert (= r{id} (- {defn} (* {q} k{id}))))(assert (<= 0 r{id}))(assert (< r{id} {q}))"
+        ));
+        V(id)
+    })
+}
+fn t(x: SymFelt) -> String {
+    match x {
+        C(c) => format!("{c}"),
+        V(i) => format!("r{i}"),
+    }
+}
+impl Add for SymFelt {
+    type Output = Self;
+    fn add(self, o: Self) -> Self {
+        match (self, o) {
+            (C(a), C(b)) => C((a + b) % m()),
+            (C(0), x) | (x, C(0)) => x,
+            _ => fresh(format!("(+ {} {})", t(self), t(o))),
+        }
+    }
+}
+impl Sub for SymFelt {
+    type Output = Self;
+    fn sub(self, o: Self) -> Self {
+        match (self, o) {
+            (C(a), C(b)) => C((a - b).rem_euclid(m())),
+            (x, C(0)) => x,
+            _ => fresh(format!("(- {} {})", t(self), t(o))),
+        }
+    }
+}
+impl Mul for SymFelt {
+    type Output = Self;
+    fn mul(self, o: Self) -> Self {
+        match (self, o) {
+            (C(a), C(b)) => C(((a as i128 * b as i128) % m() as i128) as i64),
+            (C(0), _) | (_, C(0)) => C(0),
+            (C(1), x) | (x, C(1)) => x,
+            (C(_), _) | (_, C(_)) => fresh(format!("(* {} {})", t(self), t(o))),
+            _ => panic!("S: product of two symbolic operands (non-linear) is outside this engine"),
+        }
+    }
+}
+impl MulAssign for SymFelt {
+    fn mul_assign(&mut self, o: Self) {
+        *self = *self * o;
+    }
+}
+impl Zero for SymFelt {
+    fn zero() -> Self {
+        C(0)
+    }
+    fn is_zero(&self) -> bool {
+        match self {
+            C(c) => *c == 0,
+            _ => panic!("S: is_zero on a symbolic element"),
+        }
+    }
+}
+impl One for SymFelt {
+    fn one() -> Self {
+        C(1)
+    }
+}
+fn modpow(mut b: i128, mut e: i128, q: i128) -> i128 {
+    let mut acc = 1i128;
+    b %= q;
+    while e > 0 {
+        if e & 1 == 1 {
+            acc = acc * b % q;
+        }
+        b = b * b % q;
+        e >>= 1;
+    }
+    acc
+}
+impl Inverse for SymFelt {
+    fn inverse_or_zero(self) -> Self {
+        match self {
+            // constants only (2^-1 in split_fft): computed by Fermat in i128, independent of the crate
+            C(c) => C(modpow(c as i128, m() as i128 - 2, m() as i128) as i64),
+            _ => panic!("S: inverse of a symbolic element"),
+        }
+    }
+}
+impl CyclotomicFourier for SymFelt {
+    fn primitive_root_of_unity(_n: usize) -> Self {
+        panic!("S: tables are passed explicitly")
+    }
+}
+
+/// which tables: the crate's real constants, read through the fast_fft hook
+fn tables(field: &str) -> (Vec<SymFelt>, Vec<SymFelt>, i64) {
+    let h = crate::fast_fft::verif_hook::tables_i64(field);
+    (h.0.into_iter().map(C).collect(), h.1.into_iter().map(C).collect(), h.2)
+}
+fn ninv(field: &str, n: usize) -> SymFelt {
+    C(crate::fast_fft::verif_hook::ninv_i64(field, n))
+}
+
+fn declare_inputs(n: usize, prefix: &str, out: &mut String) -> Vec<SymFelt> {
+    let q = m();
+    let mut a = vec![];
+    for i in 0..n {
+        *out += &format!("(declare-const {prefix}{i} Int)(assert (<= 0 {prefix}{i}))(assert (< {prefix}{i} {q}))\n");
+        a.push(fresh(format!("{prefix}{i}")));
+    }
+    a
+}
+fn flush(out: &mut String) {
+    SCRIPT.with(|s| {
+        for l in &s.borrow().1 {
+            *out += l;
+            *out += "\n";
+        }
+    });
+}
+fn neq(a: &[SymFelt], b: &[SymFelt]) -> String {
+    let mut s = String::new();
+    for (x, y) in a.iter().zip(b.iter()) {
+        match (x, y) {
+            (C(p), C(q)) => {
+                if p != q {
+                    s += " true";
+                }
+            }
+            _ => s += &format!(" (not (= {} {}))", t(*x), t(*y)),
+        }
+    }
+    s
+}
+
+/// emit <kind> <field> <n> [j]  ->  SMT-LIB2 script text (check-sat appended by the caller)
+pub fn emit(kind: &str, field: &str, n: usize, j: usize) -> String {
+    let (fwd, inv, modulus) = tables(field);
+    reset(modulus);
+    let mut out = String::from("(set-logic QF_LIA)\n");
+    let mut goals = String::new();
+    match kind {
+        // ifft(fft(a)) = a  and  fft(ifft(a)) = a
+        "roundtrip" => {
+            let a = declare_inputs(n, "x", &mut out);
+            let mut b = a.clone();
+            SymFelt::fft(&mut b, &fwd);
+            SymFelt::ifft(&mut b, &inv, ninv(field, n));
+            goals += &neq(&b, &a);
+            let mut c = a.clone();
+            SymFelt::ifft(&mut c, &inv, ninv(field, n));
+            SymFelt::fft(&mut c, &fwd);
+            goals += &neq(&c, &a);
+        }
+        // merge(split(F)) = F ; split(fft(a)) = (fft(a_even), fft(a_odd))
+        "splitmerge" => {
+            let a = declare_inputs(n, "x", &mut out);
+            let (f0, f1) = SymFelt::split_fft(&a, &inv);
+            let merged = SymFelt::merge_fft(&f0, &f1, &fwd);
+            goals += &neq(&merged, &a);
+            if n >= 2 {
+                let mut fa = a.clone();
+                SymFelt::fft(&mut fa, &fwd);
+                let (g0, g1) = SymFelt::split_fft(&fa, &inv);
+                let mut even: Vec<SymFelt> = a.iter().step_by(2).cloned().collect();
+                let mut odd: Vec<SymFelt> = a.iter().skip(1).step_by(2).cloned().collect();
+                SymFelt::fft(&mut even, &fwd);
+                SymFelt::fft(&mut odd, &fwd);
+                goals += &neq(&g0, &even);
+                goals += &neq(&g1, &odd);
+                // and merge of the two half transforms is the full transform
+                let mg = SymFelt::merge_fft(&even, &odd, &fwd);
+                goals += &neq(&mg, &fa);
+            }
+        }
+        // ifft(fft(a) .* fft(X^j)) = X^j * a  mod (X^n + 1)
+        "monomial" => {
+            let a = declare_inputs(n, "x", &mut out);
+            let mut fa = a.clone();
+            SymFelt::fft(&mut fa, &fwd);
+            let mut mono = vec![C(0); n];
+            mono[j] = C(1);
+            SymFelt::fft(&mut mono, &fwd);
+            let mut prod: Vec<SymFelt> = fa.iter().zip(mono.iter()).map(|(x, y)| *x * *y).collect();
+            SymFelt::ifft(&mut prod, &inv, ninv(field, n));
+            let mut want = vec![C(0); n];
+            for i in 0..n {
+                let k = i + j;
+                if k < n {
+                    want[k] = a[i];
+                } else {
+                    want[k - n] = C(0) - a[i];
+                }
+            }
+            goals += &neq(&prod, &want);
+        }
+        _ => panic!("unknown S kind"),
+    }
+    flush(&mut out);
+    if goals.trim().is_empty() {
+        out += "(assert false)\n";
+    } else {
+        out += &format!("(assert (or{goals}))\n");
+    }
+    out
+}
+
+// ------------------------------------------------------------------------------------------------ log-domain type for batch inversion
+// F_q^* is cyclic of order q-1: a nonzero element is g^e, multiplication adds exponents mod q-1, inversion negates.
+// Running the real generic `batch_inverse_or_zero` on this type and asking z3 whether some output exponent differs from
+// -e_i decides the batch logic for ALL non-zero operands at once; the zero pattern is enumerated by the caller.
+#[derive(Clone, Copy, Debug)]
+pub enum SymLog {
+    Z,       // the zero element
+    E(i64),  // g^const
+    X(u32),  // g^(symbolic exponent r_id)
+}
+impl Mul for SymLog {
+    type Output = Self;
+    fn mul(self, o: Self) -> Self {
+        use SymLog::*;
+        match (self, o) {
+            (Z, _) | (_, Z) => Z,
+            (E(a), E(b)) => E((a + b) % m()),
+            (E(0), x) | (x, E(0)) => x,
+            (a, b) => {
+                let ta = match a { E(c) => format!("{c}"), X(i) => format!("r{i}"), Z => unreachable!() };
+                let tb = match b { E(c) => format!("{c}"), X(i) => format!("r{i}"), Z => unreachable!() };
+                match fresh(format!("(+ {ta} {tb})")) { V(id) => X(id), _ => unreachable!() }
+            }
+        }
+    }
+}
+impl MulAssign for SymLog {
+    fn mul_assign(&mut self, o: Self) {
+        *self = *self * o;
+    }
+}
+impl Add for SymLog {
+    type Output = Self;
+    fn add(self, _o: Self) -> Self {
+        panic!("S(log): addition is not defined in the log domain")
+    }
+}
+impl Zero for SymLog {
+    fn zero() -> Self {
+        SymLog::Z
+    }
+    fn is_zero(&self) -> bool {
+        matches!(self, SymLog::Z)
+    }
+}
+impl One for SymLog {
+    fn one() -> Self {
+        SymLog::E(0)
+    }
+}
+impl Inverse for SymLog {
+    fn inverse_or_zero(self) -> Self {
+        use SymLog::*;
+        match self {
+            Z => Z,
+            E(c) => E((-c).rem_euclid(m())),
+            X(i) => match fresh(format!("(- 0 r{i})")) { V(id) => X(id), _ => unreachable!() },
+        }
+    }
+}
+
+/// batch <len> <zero mask>: script for "some output of batch_inverse_or_zero is not the inverse (resp. zero)"
+pub fn emit_batch(len: usize, zero_mask: usize) -> String {
+    reset(12288); // exponents live modulo q - 1
+    let mut out = String::from("(set-logic QF_LIA)\n");
+    let mut input = vec![];
+    for i in 0..len {
+        if (zero_mask >> i) & 1 == 1 {
+            input.push(SymLog::Z);
+        } else {
+            out += &format!("(declare-const e{i} Int)(assert (<= 0 e{i}))(assert (< e{i} 12288))\n");
+            match fresh(format!("e{i}")) { V(id) => input.push(SymLog::X(id)), _ => unreachable!() }
+        }
+    }
+    let res = SymLog::batch_inverse_or_zero(&input);
+    let mut goals = String::new();
+    if res.len() != len {
+        goals += " true";
+    }
+    for i in 0..len.min(res.len()) {
+        match (input[i], res[i]) {
+            (SymLog::Z, SymLog::Z) => {}
+            (SymLog::Z, _) | (_, SymLog::Z) => goals += " true",
+            (SymLog::X(a), r) => {
+                // a * r must be the identity: exponents sum to 0 mod q-1
+                let tr = match r { SymLog::E(c) => format!("{c}"), SymLog::X(k) => format!("r{k}"), SymLog::Z => unreachable!() };
+                goals += &format!(" (not (or (= (+ r{a} {tr}) 0) (= (+ r{a} {tr}) 12288)))");
+            }
+            _ => {}
+        }
+    }
+    flush(&mut out);
+    if goals.trim().is_empty() {
+        out += "(assert false)\n";
+    } else {
+        out += &format!("(assert (or{goals}))\n");
+    }
+    out
+}
